@@ -54,14 +54,15 @@ def direct_effects(P, body):
     for i, s in body.assigns():
         pl = s['pl']
         if 'deref' in pl['p']:
-            org = body.origin_place({'l': pl['l'], 'p': []})
             base = pl['l']
             if base <= body.argc and base != 0:
                 eff.add('state')
-            elif org[0] == 'place' and org[1] <= body.argc and org[1] != 0:
-                eff.add('state')
-            elif org[0] in ('call', 'multi'):
-                eff.add('state')   # write through a reference obtained from a call: assume it is shared state
+                continue
+            sm = q.sem(body, {'l': base, 'p': []})
+            if sm.kind in ('place', 'awaited-place') and sm.local is not None and sm.local <= body.argc and sm.local != 0:
+                eff.add('state')       # e.g. `Enabled { current, .. } => *current = 0` through `&mut self.state`
+            elif sm.kind in ('call', 'poll', 'select', 'branch') or (sm.kind == 'place' and sm.extra == 'multi'):
+                eff.add('state')       # write through a reference obtained from a call: assume it is shared state
     return eff
 
 
